@@ -28,6 +28,8 @@ def run(chk, repo, tier):
     chk.clause('C13-c', 'the unit of each operand is consulted before their wavelength grids are combined', 2)
     from .c14 import unit_label_order_rule
     unit_label_order_rule(chk, repo, 'C13-c')
+    from .c14 import rescaled_copy_rule
+    rescaled_copy_rule(chk, repo, 'C13-c')
     chk.clause('C13-d', 'no internal call relies on the hard-coded default wavelength unit', 5)
     chk.clause('C13-e', 'the result is a new Spectrum; scalar/vector operands keep the wavelength grid', 3)
     chk.clause('C13-f', 'common grid built symmetrically; both operands sampled and filled the same way', 3)
